@@ -81,6 +81,10 @@ def load(text: str) -> RefModel:
         "constant_bool": constant, "constant_bytearray": constant,
         "DBC": _DBC, "Enum": enum.Enum, "List": typing.List, "Optional": typing.Optional,
         "Set": typing.Set, "match": re.match, "require": require, "ensure": require,
+        # ``class X(bool, DBC)`` is a legal constrained primitive of the meta-model but not executable
+        # Python (bool cannot be subclassed); constrained-primitive classes are never instantiated by
+        # the reference (values stay raw primitives), so a subclassable stand-in is enough.
+        "bool": type("bool", (int,), {}),
     }  # type: Dict[str, Any]
     # the import statements of the meta-model are not executable here (aas_core_meta is not
     # installed): strip them, every imported name is pre-bound above
